@@ -1,6 +1,52 @@
 import TlxVerif.Model.C20Bits
 import TlxVerif.Model.C20Agg
+import TlxVerif.Proofs.C20Agg
+/-!
+C20 — property theorems.
+
+Part 1: Aggregate (exact arithmetic over ℚ; floating-point rounding is outside the theorems).
+Part 2: integer helpers (width-generic `BitVec w`).
+-/
+set_option linter.unusedSimpArgs false
 namespace TlxVerif.C20
+
+/-! ## Part 1 — Aggregate -/
+
+/-- feeding values one by one never divides by zero and yields: count = n, mean = Σx/n,
+    nvar = Σx² − (Σx)²/n = Σ(x − mean)², min/max = folds of `std::min`/`std::max` -/
+theorem agg_feed (L : Lim) (xs : List Rat) : aggOf L xs = some (closed L xs) := aggOf_closed L xs
+
+theorem agg_feed_fields (L : Lim) (xs : List Rat) :
+    (closed L xs).count = xs.length ∧
+    (closed L xs).mean = (if xs.length = 0 then 0 else S1 xs / (xs.length : Rat)) ∧
+    (closed L xs).nvar = sqdev (meanOf xs) xs := ⟨rfl, rfl, nvarOf_eq_sqdev xs⟩
+
+/-- **`a + b`** equals one Aggregate fed with all values — for all value lists, empty ones included -/
+theorem agg_plus (L : Lim) (xs ys : List Rat) :
+    (do let a ← aggOf L xs; let b ← aggOf L ys; a.plus b) = aggOf L (xs ++ ys) := by
+  simp only [agg_feed, bind, Option.bind]
+  exact plus_closed L xs ys
+
+/-- **`a += b`** (statement order of the repaired code) equals one Aggregate fed with all values -/
+theorem agg_plusEq (L : Lim) (xs ys : List Rat) :
+    (do let a ← aggOf L xs; let b ← aggOf L ys; a.plusEq b) = aggOf L (xs ++ ys) := by
+  simp only [agg_feed, bind, Option.bind, plusEq_eq_plus]
+  exact plus_closed L xs ys
+
+/-- **`a += a`** (aliased operand) equals one Aggregate fed with every value twice -/
+theorem agg_plusEqSelf (L : Lim) (xs : List Rat) :
+    (do let a ← aggOf L xs; a.plusEqSelf) = aggOf L (xs ++ xs) := by
+  simp only [agg_feed, bind, Option.bind, plusEqSelf_eq_plus]
+  exact plus_closed L xs xs
+
+/-- non-vacuity / D27 witness: {1,2,3} += {10,20} has nvar 1274/5 (variance 63.7), not 125.008 -/
+example : (do let a ← aggOf ⟨1000, -1000⟩ [1, 2, 3]; let b ← aggOf ⟨1000, -1000⟩ [10, 20]; a.plusEq b)
+    = some ⟨5, 36 / 5, 1274 / 5, 1, 20⟩ := by decide +kernel
+
+/-- non-vacuity / D28 witness: empty + empty is the empty aggregate (no NaN) -/
+example : (Agg.empty ⟨7, -7⟩).plus (Agg.empty ⟨7, -7⟩) = some (Agg.empty ⟨7, -7⟩) := by decide +kernel
+
+/-! ## Part 2 — integer helpers -/
 
 /-- 8-bit cross-check (finite table): the SWAR popcount equals the bit count -/
 theorem popcountGeneric8_table : ∀ x : BitVec 8, popcountGeneric8 x = popc 8 x.toNat := by
